@@ -208,6 +208,22 @@ def run(repo, res):
             for s, bp, binder, b in r['binds']:
                 res.check('C10-R2', key + ' flags', not b.get('qualified') and not b.get('is_star'), r['line'][0],
                           r['line'][1], 'a from-import binding is neither qualified nor a star copy', nontrivial=False)
+    # the position a report carries is the binding's own declared_at: for binders with a node of their own it must be that
+    # node's parser position (shared with C11-R1)
+    from .. import pyref
+    from ..e1 import loc_kind
+    for (cls, kind, path), r in sorted(brecs.items()):
+        if r['n'] == 0 or r['missing'] or kind not in pyref.PARSER_POSITIONED:
+            continue
+        bad = []
+        for s_, bp, binder, b in r['binds']:
+            lk = loc_kind(b.get('declared_at'))
+            own = binder['own']
+            if not (lk[0] == 'np' and own is not None and lk[1] == own.path):
+                bad.append((s_.variant, lk[:2]))
+        res.check('C10-R3', '%s %s %s position' % (R.method_name(repo, cls), kind, path), not bad, r['line'][0], r['line'][1],
+                  'an unused-name report for this binding would carry %s instead of the position of the identifier' % (bad[:1],),
+                  nontrivial=False)
     rsi = repo.method('supp/scope.py', 'SourceScope', 'resolve_star_imports')
     calls = [c for c in ast.walk(rsi) if isinstance(c, ast.Call) and unparse(c.func) == 'ImportedName']
     ok = len(calls) == 1 and (len(calls[0].args) >= 6 and unparse(calls[0].args[5]) == 'True'
